@@ -101,3 +101,15 @@ pub fn verif_array_iter_all<T, const M: usize, F: Fn(&T) -> bool>(s: &[T; M], f:
 { s.iter().all(f) }
 pub assume_specification<T, const N: usize> [<[T; N] as core::convert::AsRef<[T]>>::as_ref](a: &[T; N]) -> (s: &[T])
     ensures s@ == a@;
+
+// ---- mirror comparison traits with a precondition hook (vstd's PartialEq/PartialOrd spec traits have none)
+pub trait VPartialEq<Rhs>: Sized {
+    spec fn v_cmp_req(&self, other: &Rhs) -> bool;
+    fn eq(&self, other: &Rhs) -> (r: bool)
+        requires self.v_cmp_req(other);
+}
+pub trait VPartialOrd<Rhs>: Sized {
+    spec fn v_ord_req(&self, other: &Rhs) -> bool;
+    fn partial_cmp(&self, other: &Rhs) -> (r: Option<core::cmp::Ordering>)
+        requires self.v_ord_req(other);
+}
